@@ -140,7 +140,8 @@ func NewPartition(
 // return appended index, if success.
 func (p *partition) ReplicaLog(replicaIdx int64, msg []byte) (int64, error) {
 	if p.closed.Load() {
-		return 0, constants.ErrPartitionClosed
+		// nothing appended, must not return an index which the leader could take as an ack(0 is a valid index)
+		return -1, constants.ErrPartitionClosed
 	}
 	appendIdx := p.log.Queue().AppendedSeq() + 1
 	if replicaIdx != appendIdx {
